@@ -36,6 +36,13 @@ def rdhdr(k, full, tiers, timeout=600):
         bound="a stream of up to %d records; numeric fields, magic, version, checksum and type flag bytes all symbolic; name/linkname/prefix %s; "
               "any read may fail or come back short; PAX / long-name / sparse sub-parsers are contract stubs" % (k, {0: "short (<= 2 symbolic bytes)", 7: "completely filled (no terminator)", 1: "name filled, others short", 4: "prefix filled, others short"}[full]))
 OBLIGATIONS += [rdhdr(1, 0, ["quick", "thorough"]), rdhdr(1, 7, ["thorough"]), rdhdr(1, 1, ["thorough"]), rdhdr(1, 4, ["thorough"]), rdhdr(2, 0, ["thorough"], 1200)]
+OBLIGATIONS.append(dict(name="tar_iterator_record_accounting", harness="harness/C04_iterator.c", sources=[], included_sources=["lib/tar/src/iterator.c"],
+    incdirs=["lib/tar/src"], unwind=6, tiers=["quick", "thorough"], timeout=300,
+    fp_map={"get_buffered_data": ["base_get"], "advance_buffer": ["base_adv"], "destroy": ["base_destroy", "it_destroy"]},
+    reach=["member_read", "next_entry", "io_error"],
+    functions=["it_next, it_open_file_ro, strm_get_buffered_data, strm_advance_buffer, strm_destroy, drop_parent, is_sparse_region (lib/tar/src/iterator.c)"],
+    bound="two consecutive members, record size any value < 2^62, the consumer reads any prefix of the member in <= 2 chunks or nothing; the archive stream hands out 1..8 bytes per call and may fail"))
+
 ASSUMPTIONS = ["ctype classification = C locale (stubs/vp_ctype.c)", "path lookup replaced by a symbolic graph (superset of all archives / pack files)"]
 OUTSIDE = ["zlib/xz/zstd/bzip2 on corrupt streams", "glob.c against a real directory"]
 META = dict(
